@@ -95,7 +95,7 @@ fn dump_ast(kind: &str, ast: &GrammarAST) -> String {
             for n in v {
                 write!(o, " {}", xh(n)).unwrap();
             }
-            // the iteration order of this very HashMap (the one the constructor will iterate)
+            // the iteration order of this very HashMap (must NOT influence the grammar object)
             write!(o, " # ITO").unwrap();
             for n in m.keys() {
                 write!(o, " {}", xh(n)).unwrap();
